@@ -109,6 +109,12 @@ M = [
  ("c07_epf_sigma_conditional_store", "C07", "stale-scratch", "crates/jxl-render/src/filter/epf.rs",
   "                *sigma = if let Some(grid) = sigma_grid_map[sigma_grid_idx] {\n                    let width = grid.width();\n                    grid.buf()[sigma_inner_y * width + sigma_inner_x]\n                } else {\n                    epf_params.sigma_for_modular\n                };",
   "                if let Some(grid) = sigma_grid_map[sigma_grid_idx] {\n                    let width = grid.width();\n                    *sigma = grid.buf()[sigma_inner_y * width + sigma_inner_x];\n                }"),
+ ("c12_narrow_predicate_or", "C12", "narrow_modular|table-differs", "crates/jxl-render/src/lib.rs",
+  "        !self.force_wide_buffers && self.image_header.metadata.modular_16bit_buffers", "        !self.force_wide_buffers || self.image_header.metadata.modular_16bit_buffers"),
+ ("c12_i16_add_saturates", "C12", "impls-differ", "crates/jxl-modular/src/sample.rs",
+  "    fn add(self, rhs: i16) -> i16 {\n        self.wrapping_add(rhs)", "    fn add(self, rhs: i16) -> i16 {\n        self.saturating_add(rhs)"),
+ ("c12_i16_opaque_alpha_shifted", "C12", "arms-differ", "crates/jxl-render/src/image.rs",
+  "                    g.buf_mut().fill(opaque_int as i16);", "                    g.buf_mut().fill((opaque_int >> 1) as i16);"),
  ("c09_eof_exit_without_carry", "C09", "return-without-carry", "crates/jxl-oxide/src/lib.rs",
   "                Err(e) if e.unexpected_eof() => {\n                    self.buffer = buf.to_vec();\n                    return Ok(());\n                }\n                Err(e) => {\n                    return Err(e.into());\n                }\n            };\n            let frame_index = frame.index();",
   "                Err(e) if e.unexpected_eof() => {\n                    return Ok(());\n                }\n                Err(e) => {\n                    return Err(e.into());\n                }\n            };\n            let frame_index = frame.index();"),
